@@ -770,6 +770,9 @@ def run_C14(res, tier, seed, t_end, bad):
     aio.run_async_campaign(res, 'C14', None, 0, seed + 4, t_end, plans=aio.async_extra_scenarios())
     if res.findings:
         return
+    aio.run_async_campaign(res, 'C14', None, 0, seed + 5, t_end, plans=aio.async_spoil_scenarios())
+    if res.findings:
+        return
     # (1) blocking pops on the asyncio front-end: served, timed out, pipelined requests behind them
     aio.run_async_campaign(res, 'C14', aio.plan_async(70), budget(tier, 30, 800), seed, t_end)
     # (2) every other command family through the asyncio socket against the same model as the sync socket
